@@ -204,6 +204,9 @@ def mk_cmp(op, a, b):
         op, a, b = '<=', b, a
     if is_c(a) and is_c(b):
         return C(int({'<': a[1] < b[1], '<=': a[1] <= b[1], '==': a[1] == b[1], '!=': a[1] != b[1]}[op]))
+    if a == b and a[0] not in ('call', 'flt'):
+        # x ? x on integers (a call result compared with itself is the same value as well, but keep calls opaque)
+        return C(int(op in ('==', '<=')))
     # truth value compared with 0 / 1:  (x < y) == 0  ->  y <= x
     if op in ('==', '!=') and a[0] == 'cmp' and is_c(b) and b[1] in (0, 1):
         same = (b[1] == 1) == (op == '==')
